@@ -512,3 +512,45 @@ Proof.
       exfalso. apply andb_true_iff in E as [E1 E2]. apply in_sel_iff in E1.
       apply selected_iff in E1 as (H1 & H2 & H3). apply Hn. split; auto. split; [left; auto | auto].
 Qed.
+
+(** * the measurement shortcut (taken for an equality [_measurement = n] only): when every
+    listed series the predicate selects belongs to measurement [n], stopping after [n] (or
+    skipping a shard that does not have [n]) loses nothing. *)
+Lemma beqb_iff a b : bytes_eqb a b = true <-> a = b.
+Proof. apply (list_eqb_spec N.eqb). intros; apply N.eqb_eq. Qed.
+
+Theorem del_loop_shortcut_exact defs p lo hi n : forall ms sh k t,
+  wf_shard sh ->
+  (forall s, In s (sh_listed sh) ->
+             matches no_regex p (engine_key (sname defs s) (stags defs s)) = true -> sname defs s = n) ->
+  In n ms ->
+  (hit defs p lo hi sh ms k t -> get (del_loop defs p lo hi (Some n) ms sh) k t = None) /\
+  (~ hit defs p lo hi sh ms k t -> get (del_loop defs p lo hi (Some n) ms sh) k t = get sh k t).
+Proof.
+  induction ms as [|mm r IH]; intros sh k t W H Hn; [contradiction|].
+  simpl. destruct (bytes_eqb mm n) eqn:E.
+  - apply beqb_iff in E. subst mm.
+    set (sel := selected defs p sh n).
+    assert (G : get (eng_delete defs sh sel lo hi) k t =
+                if in_sel sel k && in_range lo hi t then None else get sh k t)
+      by (apply eng_delete_exact; auto).
+    split.
+    + intros (H1 & H2 & H3 & H4). rewrite G.
+      assert (in_sel sel k = true) as ->.
+      { apply in_sel_iff. apply selected_iff. split; auto. }
+      rewrite H4. reflexivity.
+    + intros Hh. rewrite G. destruct (in_sel sel k && in_range lo hi t) eqn:E; [|reflexivity].
+      exfalso. apply andb_true_iff in E as [E1 E2]. apply in_sel_iff in E1.
+      apply selected_iff in E1 as (H1 & H2 & H3). apply Hh. split; auto. split; [left; auto | auto].
+  - assert (Hne : mm <> n) by (intros ->; rewrite (proj2 (beqb_iff n n) eq_refl) in E; discriminate).
+    assert (Es : selected defs p sh mm = []).
+    { destruct (selected defs p sh mm) as [|s l] eqn:S; auto. exfalso.
+      assert (Hin : In s (selected defs p sh mm)) by (rewrite S; simpl; auto).
+      apply selected_iff in Hin as (H1 & H2 & H3). apply Hne. rewrite <- H2. apply H; auto. }
+    rewrite Es. change (eng_delete defs sh [] lo hi) with sh.
+    assert (Hn' : In n r) by (destruct Hn as [Hn|Hn]; [contradiction | exact Hn]).
+    destruct (IH sh k t W H Hn') as [I1 I2]. split.
+    + intros (H1 & H2 & H3 & H4). apply I1. split; auto. split; auto.
+      destruct H2 as [H2|H2]; auto. exfalso. apply Hne. rewrite H2. apply H; auto.
+    + intros Hh. apply I2. intros (H1 & H2 & H3 & H4). apply Hh. split; auto. split; [right; auto | auto].
+Qed.
